@@ -1,4 +1,121 @@
-(* C16 - statements only (stub while the proofs are being written) *)
-Require Import ZArith List. Require Import IW.JSON.Patch.
-Theorem C16_stub : forall n : node, n = n. Proof. reflexivity. Qed.
-Print Assumptions C16_stub.
+(* C16 - JSON Merge Patch gives the RFC 7386 result.  Statements only.
+   Model: IW.JSON.Merge over IW.JSON.Mem (the code with fixes/jpatch-merge-{doublefree,leak,rc,nonobject}.diff applied);
+   specification: merge_spec in IW.JSON.PatchSpec (the MergePatch function of rfc7386 section 2).
+   `good n` = klidx invariant of C15 (cached key length = length of the member name, ...) and no JBV_NONE node;
+   every tree built by jbn_from_json / from the binary form is good (C16_parsed_documents_good). *)
+Require Import ZArith List Bool Permutation.
+Require Import IW.Lib.CInt IW.UT.Conv IW.JSON.Val IW.JSON.Patch IW.JSON.PatchSpec IW.JSON.Patch_proofs
+               IW.JSON.Mem IW.JSON.Merge IW.JSON.Merge_proofs IW.Gen.Facts.
+Import ListNotations. Local Open Scope Z_scope.
+
+Theorem C16_parsed_documents_good : forall v kl key, good (of_val kl key v) /\ val (of_val kl key v) = v.
+Proof. intros v kl key. split; [apply of_val_good | apply of_val_inv]. Qed.
+Print Assumptions C16_parsed_documents_good.
+
+(* _jbl_merge_patch_node with a pool, for ALL (target, patch) pairs - absent target, nested nulls, type changes at any
+   depth, empty objects, names that are prefixes of one another (the code compares klidx and strncmp: under `good`
+   that is equality of the names, lemma mkey_match_spec) *)
+Theorem C16_merge_rfc7386 : forall t p, opt_good t -> good p ->
+  val (merge_pool t p) = merge_spec (option_map val t) (val p) /\ good (merge_pool t p).
+Proof. exact merge_pool_rfc7386. Qed.
+Print Assumptions C16_merge_rfc7386.
+
+(* jbn_merge_patch: success with the RFC value, or IW_ERROR_INVALID_ARGS for a non-object root/patch with the root
+   untouched (the failure is reported) *)
+Theorem C16_jbn_merge_patch_rfc7386 : forall root patch, good root -> good patch ->
+  match jbn_merge_patch_pool root patch with
+  | (RcOk, r) => val r = merge_spec (Some (val root)) (val patch) /\ good r
+  | (_, r) => r = root /\ (n_ty root <> TObj \/ n_ty patch <> TObj)
+  end.
+Proof. exact jbn_merge_patch_pool_rfc7386. Qed.
+Print Assumptions C16_jbn_merge_patch_rfc7386.
+
+(* heap mode (pool == 0) over the ownership heap: for every heap h whose live allocations are those of the target
+   plus a frame F, the merge finishes without DoubleFree / UseAfterFree, the live allocations afterwards are exactly
+   those of the result plus F (nothing leaked, nothing freed that is still referenced), freeing the result returns
+   the heap to F, and the value is MergePatch(target, patch).
+   FALSE of the unfixed code: target {"a":"str"}, patch {"a":{"b":1}} => DoubleFree (notes/jpatch.md; reproduced
+   on the real code under ASan: "attempting double-free"). *)
+Theorem C16_merge_heap_safe : forall h root patch F, good (forget root) -> good patch ->
+  Permutation (h_live h) (owns root ++ F) ->
+  exists rc h' root', jbn_merge_patch_heap h root patch = inr (rc, h', root') /\
+    Permutation (h_live h') (owns root' ++ F) /\
+    (exists h'', destroy h' root' = inr h'' /\ Permutation (h_live h'') F) /\
+    (rc = RcOk -> val (forget root') = merge_spec (Some (val (forget root))) (val patch) /\ good (forget root')) /\
+    (rc <> RcOk -> root' = root /\ h' = h).
+Proof. exact merge_heap_safe. Qed.
+Print Assumptions C16_merge_heap_safe.
+
+(* the malloc-ed copy of a document (jbn_clone(doc, &t, 0)) satisfies the hypotheses of C16_merge_heap_safe *)
+Theorem C16_heap_of_ok : forall doc, good doc ->
+  Permutation (h_live (fst (heap_of doc))) (owns (snd (heap_of doc)) ++ []) /\
+  good (forget (snd (heap_of doc))) /\ val (forget (snd (heap_of doc))) = val doc.
+Proof. exact heap_of_ok. Qed.
+Print Assumptions C16_heap_of_ok.
+
+(* pool / text / auto / heap entry points give the same value, namely MergePatch *)
+Theorem C16_merge_variants_agree : forall h root hroot patch F,
+  good root -> n_ty root = TObj -> good patch -> n_ty patch = TObj ->
+  good (forget hroot) -> val (forget hroot) = val root -> hn_ty hroot = TObj ->
+  Permutation (h_live h) (owns hroot ++ F) ->
+  let spec := merge_spec (Some (val root)) (val patch) in
+  (exists r, jbn_merge_patch_pool root patch = (RcOk, r) /\ val r = spec) /\
+  val (jbn_merge_patch_node root patch) = spec /\
+  (forall fo, exists r, jbn_patch_auto fo root patch = (RcOk, r) /\ val r = spec) /\
+  (exists h' r, jbn_merge_patch_heap h hroot patch = inr (RcOk, h', r) /\ val (forget r) = spec).
+Proof. exact merge_variants_agree. Qed.
+Print Assumptions C16_merge_variants_agree.
+
+(* jbl_merge_patch: any patch (object or not), for conversions dec/enc that are inverse on values *)
+Theorem C16_merge_binary_rfc7386 : forall (B : Type) (dec : B -> node) (enc : node -> option B) b patch,
+  (forall b0, good (dec b0)) ->
+  (forall n, good n -> exists b', enc n = Some b' /\ val (dec b') = val n) ->
+  good patch ->
+  exists b', merge_binary B dec enc b patch = (RcOk, b') /\ val (dec b') = merge_spec (Some (val (dec b))) (val patch).
+Proof. exact merge_binary_rfc7386. Qed.
+Print Assumptions C16_merge_binary_rfc7386.
+
+(* jbn_merge_patch_path: merging {seg1:{seg2:...value}} (an empty object at the end when no value is given) *)
+Theorem C16_merge_path_rfc7386 : forall root path segs v, good root -> n_ty root = TObj -> opt_good v ->
+  path <> [] -> path <> [47] -> ptr_parse path = PtrOk segs ->
+  exists r, jbn_merge_patch_path_pool root path v = (RcOk, r) /\
+            val r = merge_spec (Some (val root)) (JObj (wrap_val segs (option_map val v))).
+Proof. exact merge_path_rfc7386. Qed.
+Print Assumptions C16_merge_path_rfc7386.
+
+(* ---- the hypotheses are satisfiable by non-trivial states *)
+Definition s (l : list Z) := JStr l.
+(* rfc7386 section 3: {"a":"b","c":{"d":"e","f":"g"}} with {"a":"z","c":{"f":null}} is {"a":"z","c":{"d":"e"}} *)
+Definition ex_target : jval := JObj [([97], s [98]); ([99], JObj [([100], s [101]); ([102], s [103])])].
+Definition ex_patch : jval := JObj [([97], s [122]); ([99], JObj [([102], JNull)])].
+Definition ex_result : jval := JObj [([97], s [122]); ([99], JObj [([100], s [101])])].
+
+Example C16_ex_rfc_section3 :
+  good (of_val 0 [] ex_target) /\ good (of_val 0 [] ex_patch) /\
+  merge_spec (Some ex_target) ex_patch = ex_result /\
+  val (merge_pool (Some (of_val 0 [] ex_target)) (of_val 0 [] ex_patch)) = ex_result.
+Proof. split; [apply of_val_good | split; [apply of_val_good | split; reflexivity]]. Qed.
+
+(* the double-free witness on the fixed model: {"a":"str"} with {"a":{"b":1}} in heap mode runs clean, the result is
+   {"a":{"b":1}}, and freeing it leaves no live allocation *)
+Example C16_ex_heap_string_to_object :
+  let doc := of_val 0 [] (JObj [([97], s [115;116;114])]) in
+  let patch := of_val 0 [] (JObj [([97], JObj [([98], JI64 1)])]) in
+  good doc /\ good patch /\
+  match jbn_merge_patch_heap (fst (heap_of doc)) (snd (heap_of doc)) patch with
+  | inr (RcOk, h', r) => val (forget r) = JObj [([97], JObj [([98], JI64 1)])] /\
+                         match destroy h' r with inr h'' => h_live h'' = [] | inl _ => False end
+  | _ => False
+  end.
+Proof. cbv zeta. split; [apply of_val_good | split; [apply of_val_good | vm_compute; split; reflexivity]]. Qed.
+
+(* a container replaced by a scalar and an array replaced by an object: nothing leaks *)
+Example C16_ex_heap_no_leak :
+  let doc := of_val 0 [] (JObj [([97], JArr [JI64 1; s [120]]); ([98], JObj [([122], JArr [s [115]])])]) in
+  let patch := of_val 0 [] (JObj [([97], JObj [([113], JNull)]); ([98], JI64 5)]) in
+  match jbn_merge_patch_heap (fst (heap_of doc)) (snd (heap_of doc)) patch with
+  | inr (RcOk, h', r) => val (forget r) = JObj [([97], JObj []); ([98], JI64 5)] /\
+                         match destroy h' r with inr h'' => h_live h'' = [] | inl _ => False end
+  | _ => False
+  end.
+Proof. vm_compute. split; reflexivity. Qed.
